@@ -15,8 +15,8 @@ from . import spec_sim as SS
 
 PROP = 'C17'
 LEVEL = 'proof'
-SHAPES = dict(quick=dict(max_dim=18, dicke=[(2, 2, 2), (2, 2, 3), (2, 3, 2), (3, 2, 2), (2, 2, 4), (3, 3, 2)]),
-              thorough=dict(max_dim=36, dicke=[(2, 2, 2), (2, 2, 3), (2, 3, 2), (3, 2, 2), (2, 2, 4), (3, 3, 2), (2, 3, 3), (2, 2, 5), (4, 2, 3), (2, 4, 2)]))
+SHAPES = dict(quick=dict(max_dim=18, dicke=[(2, 2, 1), (2, 3, 1), (2, 2, 2), (2, 2, 3), (2, 3, 2), (3, 2, 2), (2, 2, 4), (3, 3, 2)]),
+              thorough=dict(max_dim=36, dicke=[(2, 2, 1), (2, 3, 1), (3, 4, 1), (2, 2, 2), (2, 2, 3), (2, 3, 2), (3, 2, 2), (2, 2, 4), (3, 3, 2), (2, 3, 3), (2, 2, 5), (4, 2, 3), (2, 4, 2)]))
 TRUSTED_BASE = [
     'CPython + NumPy reshape/einsum/indexing machinery on object arrays == on typed arrays up to element arithmetic',
     'floats are reals; float constants are read as the rationals / square roots of rationals they denote',
